@@ -68,8 +68,9 @@ func NewSnippet(b []byte, opts ...SnippetOption) *Snippet {
 	linesHighlighted := strings.Split(buf.String(), "\n")
 
 	// Work out the start and end lines of the snippet
-	snippet.start = max(snippet.line-snippet.padding, 1)
-	snippet.end = min(snippet.line+snippet.padding, len(linesRaw)-1)
+	n := min(len(linesRaw), len(linesHighlighted))
+	snippet.start = min(max(snippet.line-snippet.padding, 1), n+1)
+	snippet.end = max(min(snippet.line+snippet.padding, n-1), snippet.start-1)
 	snippet.linesRaw = linesRaw[snippet.start-1 : snippet.end]
 	snippet.linesHighlighted = linesHighlighted[snippet.start-1 : snippet.end]
 
